@@ -35,11 +35,14 @@ ShareNonRootGroup(r) == CommonLen(r.sg, r.dg) >= 1
 IsOutput(sk) == sk \in {"pers", "event"}
 IsInput(dk, any) == dk \in {"trig", "nontrig"} \/ any
 IsNonTrigger(dk, any) == dk = "nontrig" \/ (dk = "none" /\ any)
+\* r.nolist: the destination is a hybrid any_inputs model WITHOUT a trigger / non-trigger list - by the hybrid default every
+\* input, listed in attrs or not, is then a non-trigger input
+NoList(r) == IF "nolist" \in DOMAIN r THEN r.nolist ELSE FALSE
 
 Reject(r, pr) ==
   \/ ~IsOutput(pr.sk)
   \/ ~IsInput(pr.dk, r.any)
-  \/ ((r.shift > 0 \/ r.weak) /\ IsNonTrigger(pr.dk, r.any) /\ ~r.init)
+  \/ ((r.shift > 0 \/ r.weak) /\ (IsNonTrigger(pr.dk, r.any) \/ NoList(r)) /\ ~r.init)
   \/ (r.weak /\ ~ShareNonRootGroup(r))
 
 RowViol(n) ==
